@@ -15,12 +15,14 @@ CONSTANTS Kinds,        \* subset of {"choice", "plain", "confirm"}
           Multis,       \* set of values of `multi` for choice questions
           Muts,         \* what the caller did to its choice list between building the question and asking it:
                         \*   0 nothing, 1 appended the last choice, 2 replaced the first choice, 3 removed a trailing one
+          RouteIds,     \* which of the routes by which the I/O is prepared (see RouteOf)
           Rounds        \* 1: one dialogue;  2: the same question OBJECT is asked a second time on the rest of the input
 
 VARIABLES idx,          \* the indices the initial state was built from (constant along a behaviour)
+          route,        \* how the I/O was prepared (constant along a behaviour)
           round,        \* 1 or 2
           first         \* the outcome of the first dialogue (round 2)
-mvars == <<vars, idx, round, first>>
+mvars == <<vars, idx, route, round, first>>
 
 ChoicePool == << <<"a">>, <<"1">>, <<"x", " ", "y">>, <<"A">>, <<"b">>, <<"a", ".", "b">> >>
 AnswerPool == << <<>>, <<"0">>, <<"1">>, <<"a">>, <<"z", "z">>, <<"-", "1">>, <<"9">>, <<"a", ",", "b">>,
@@ -36,11 +38,16 @@ DefOK(d, mu, n) == \/ d = 0 \/ d = 1
 \* kind "plain": a Question whose validator accepts the members of `choices`; its default is a value
 PlainDefaults == << <<"a">>, <<"z", "z">> >>
 \* confirmations
-Patterns == << [ci |-> TRUE,  alts |-> << <<"y">> >>, whole |-> FALSE],                          \* (?i)^y   (the default)
-               [ci |-> TRUE,  alts |-> << <<"j">>, <<"y">> >>, whole |-> FALSE],                 \* (?i)^(j|y)
-               [ci |-> FALSE, alts |-> << <<"y", "e", "s">>, <<"o", "u", "i">> >>, whole |-> TRUE] >>  \* ^(yes|oui)$
+Patterns == << [ci |-> TRUE,  alts |-> << <<"y">> >>, whole |-> FALSE, anch |-> TRUE],                          \* (?i)^y   (the default)
+               [ci |-> TRUE,  alts |-> << <<"j">>, <<"y">> >>, whole |-> FALSE, anch |-> TRUE],                 \* (?i)^(j|y)
+               [ci |-> FALSE, alts |-> << <<"y", "e", "s">>, <<"o", "u", "i">> >>, whole |-> TRUE, anch |-> TRUE],  \* ^(yes|oui)$
+               [ci |-> FALSE, alts |-> << <<"y">> >>, whole |-> FALSE, anch |-> FALSE],                         \* (y)
+               [ci |-> TRUE,  alts |-> << <<"o", "k">>, <<"1">> >>, whole |-> FALSE, anch |-> FALSE],           \* (?i)(ok|1)
+               [ci |-> FALSE, alts |-> << <<"y", "e", "s">>, <<"y", "s">> >>, whole |-> TRUE, anch |-> FALSE] >>  \* (yes|ys)$
 ConfirmAnswers == << <<>>, <<"y">>, <<"Y">>, <<"y", "e", "s">>, <<"n">>, <<"n", "o">>, <<"j">>, <<" ", "y", " ">>,
-                     <<"n", "y">>, <<"o", "u", "i">>, <<"y", "e">>, <<"Y", "E", "S">>, <<" ">>, <<"y", "e", "s", "s">> >>
+                     <<"n", "y">>, <<"o", "u", "i">>, <<"y", "e">>, <<"Y", "E", "S">>, <<" ">>, <<"y", "e", "s", "s">>,
+                     <<"n", "a", "y">>, <<"o", "h", " ", "y", "e", "s">>, <<"n", "o", "t", " ", "o", "k">>, <<"O", "K">>,
+                     <<"0", "1">>, <<"1", "0">>, <<"y", "s">> >>
 NoPat == Patterns[1]
 
 Q(kind, cs, bs, mu, hasDef, def, defB, att, inter, val, pat) ==
@@ -59,7 +66,7 @@ InitChoice ==
   /\ "choice" \in Kinds
   /\ \E n \in 1..MaxChoices : \E ci \in [1..n -> 1..NPool] : \E m \in 0..MaxLines : \E si \in [1..m -> 1..NAnswers] :
      \E att \in Attempts, mu \in Multis, d \in 0..NDefaults, inter \in Inter, mt \in Muts :
-       /\ DefOK(d, mu, n) /\ (~inter => (m = 0 /\ att = 0)) /\ (mt = 1 => n >= 2)
+       /\ DefOK(d, mu, n) /\ (~inter => (m <= 1 /\ att = 0)) /\ (mt = 1 => n >= 2)
        /\ Start(Q("choice", [k \in 1..n |-> ChoicePool[ci[k]]], BuiltOf([k \in 1..n |-> ChoicePool[ci[k]]], mt), mu, d > 0, IF d > 0 THEN DefaultPool[d] ELSE <<>>,
                   FALSE, att, inter, TRUE, NoPat),
                 [k \in 1..m |-> AnswerPool[si[k]]], 0)
@@ -70,7 +77,7 @@ InitPlain ==
   /\ "plain" \in Kinds
   /\ \E n \in 1..MaxChoices : \E ci \in [1..n -> 1..NPool] : \E m \in 0..MaxLines : \E si \in [1..m -> 1..NAnswers] :
      \E att \in Attempts, val \in BOOLEAN, d \in 0..2, inter \in Inter :
-       /\ (~inter => (m = 0 /\ att = 0)) /\ (~val => (att = 0 /\ n = 1 /\ m <= 1))
+       /\ (~inter => (m <= 1 /\ att = 0)) /\ (~val => (att = 0 /\ n = 1 /\ m <= 1))
        /\ Start(Q("plain", [k \in 1..n |-> ChoicePool[ci[k]]], [k \in 1..n |-> ChoicePool[ci[k]]], FALSE, d > 0, IF d > 0 THEN PlainDefaults[d] ELSE <<>>,
                   FALSE, att, inter, val, NoPat),
                 [k \in 1..m |-> AnswerPool[si[k]]], 0)
@@ -85,13 +92,31 @@ InitConfirm ==
        /\ idx = [c |-> <<>>, s |-> si, d |-> 0, p |-> p]
        /\ round = 1 /\ first = First0
 
-Init == InitChoice \/ InitPlain \/ InitConfirm
+\* the routes by which the I/O of the dialogue is prepared (ls = the script, b = interactive)
+Op0(op, ls, b) == [op |-> op, ls |-> ls, b |-> b]
+RouteOf(rid, ls, b) ==
+  LET h == IF ls = <<>> THEN <<>> ELSE <<Head(ls)>>
+      t == IF ls = <<>> THEN <<>> ELSE Tail(ls)
+  IN CASE rid = 1 -> <<Op0("ctor", ls, FALSE), Op0("io_inter", <<>>, b)>>                                     \* BufferedIO(script); io.set_interactive
+       [] rid = 2 -> <<Op0("ctor", <<>>, FALSE), Op0("set_input", ls, FALSE), Op0("io_inter", <<>>, b)>>        \* set_input, then the switch
+       [] rid = 3 -> <<Op0("ctor", <<>>, FALSE), Op0("io_inter", <<>>, b), Op0("set_input", ls, FALSE)>>        \* the switch, then set_input
+       [] rid = 4 -> <<Op0("ctor", <<>>, FALSE), Op0("input_inter", <<>>, b), Op0("stream_set", ls, FALSE)>>    \* io.input.set_interactive, stream.set
+       [] rid = 5 -> <<Op0("ctor", h, FALSE), Op0("io_inter", <<>>, b), Op0("append_input", t, FALSE)>>         \* the switch between two loads
+       [] rid = 6 -> <<Op0("ctor", h, FALSE), Op0("stream_append", t, FALSE), Op0("input_inter", <<>>, b)>>
+       [] rid = 7 -> <<Op0("ctor", ls, FALSE), Op0("io_inter", <<>>, ~b), Op0("clear_input", <<>>, FALSE),      \* switched twice, reloaded
+                       Op0("input_inter", <<>>, b), Op0("set_input", ls, FALSE)>>
+       [] rid = 8 -> <<Op0("ctor", ls, FALSE)>>                                                                \* nothing said: interactive
+
+Init == (InitChoice \/ InitPlain \/ InitConfirm)
+        /\ \E rid \in RouteIds : LET r == RouteOf(rid, script, q.interactive)
+                                  IN /\ (rid # 1 => (~q.interactive \/ (Len(script) <= 1 /\ q.maxAtt <= 1 /\ ~q.multi /\ ~q.hasDef)))
+                                     /\ route = r /\ EnvScript(r) = script /\ EnvInter(r) = q.interactive
 \* the same question object is asked again where the first dialogue stopped reading
 Again == /\ pc = "done" /\ round < Rounds /\ round' = round + 1
          /\ first' = [out |-> out, r |-> obs.reads, n |-> pos - start, e |-> obs.errs, w |-> obs.prompts]
-         /\ ReAsk(script, pos) /\ UNCHANGED idx
-MNext == (Next /\ UNCHANGED <<idx, round, first>>) \/ Again
-CNext == CoreNext /\ UNCHANGED <<idx, round, first>>
+         /\ ReAsk(script, pos) /\ UNCHANGED <<idx, route>>
+MNext == (Next /\ UNCHANGED <<idx, route, round, first>>) \/ Again
+CNext == CoreNext /\ UNCHANGED <<idx, route, round, first>>
 Spec == Init /\ [][MNext]_mvars /\ WF_mvars(MNext)
 \* for the large enumerations (safety + emission only; liveness is checked on the smaller configurations)
 SafetySpec == Init /\ [][MNext]_mvars
@@ -130,7 +155,8 @@ ASSUME PrintT(ToJson([pools |-> TRUE, choices |-> FlatAll(ChoicePool), answers |
                                       [ci |-> Patterns[k].ci, whole |-> Patterns[k].whole, alts |-> FlatAll(Patterns[k].alts)]]]))
 
 OutJ(o) == [ok |-> o.kind, x |-> o.cls, t |-> o.val.t, vs |-> Flat(o.val.s), vl |-> FlatAll(o.val.l), vb |-> o.val.b]
-Emit == Last => PrintT(ToJson([kind |-> q.kind, b |-> FlatAll(q.built), rounds |-> Rounds,
+RouteJ == [k \in 1..Len(route) |-> [op |-> route[k].op, ls |-> FlatAll(route[k].ls), b |-> route[k].b]]
+Emit == Last => PrintT(ToJson([kind |-> q.kind, b |-> FlatAll(q.built), rounds |-> Rounds, route |-> RouteJ,
                               f |-> [o |-> OutJ(first.out), r |-> first.r, n |-> first.n, e |-> first.e, w |-> first.w],
                               c |-> idx.c, s |-> idx.s, d |-> idx.d, p |-> idx.p, m |-> q.multi,
                               a |-> q.maxAtt, i |-> q.interactive, v |-> q.validator, db |-> q.defB,
